@@ -243,6 +243,8 @@ def show(e, depth=0):
                 return repr(c[k]) if k in ("str", "char") else c[k]
         if "fn" in c:
             return "fn " + norm(c["fn"].get("rdef") or c["fn"]["def"]).split("::")[-1]
+        if "enum_variant" in c:
+            return "&" + norm(c.get("enum", "")).split("::")[-1] + "::" + c["enum_variant"]
         if "path" in c:
             return norm(c["path"]).replace("cooklang::", "")
         if "bits" in c:
